@@ -64,8 +64,19 @@ type ClientConn struct {
 	logger        *zap.Logger
 	closing       bool
 	closingMu     *sync.RWMutex
-	codec         frame.RawCodec
+	codec         atomic.Value              // Holds a codecBox. Replaced by the handshake when compression is used
 	version       primitive.ProtocolVersion // Set by the handshake
+}
+
+// codecBox gives the codecs stored in ClientConn.codec one concrete type.
+type codecBox struct {
+	frame.RawCodec
+}
+
+// getCodec returns the codec in use. It's read by the connection's reader and writer goroutines while the handshake,
+// which runs on the connecting goroutine, replaces it when compression is negotiated.
+func (c *ClientConn) getCodec() frame.RawCodec {
+	return c.codec.Load().(codecBox).RawCodec
 }
 
 // ConnectClient creates a new connection to an endpoint within a downstream cluster using TLS if specified.
@@ -76,8 +87,8 @@ func ConnectClient(ctx context.Context, endpoint Endpoint, config ClientConnConf
 		closingMu:     &sync.RWMutex{},
 		preparedCache: config.PreparedCache,
 		logger:        GetOrCreateNopLogger(config.Logger),
-		codec:         codecs.CustomRawCodec,
 	}
+	c.codec.Store(codecBox{codecs.CustomRawCodec})
 	var err error
 	c.conn, err = Connect(ctx, endpoint, c)
 	if err != nil {
@@ -102,7 +113,7 @@ func (c *ClientConn) handshake(ctx context.Context, version primitive.ProtocolVe
 		value := startupKeysAndValues[i+1]
 		if strings.EqualFold("COMPRESSION", key) {
 			if codec, ok := codecs.CustomRawCodecsWithCompression[strings.ToLower(value)]; ok {
-				c.codec = codec
+				c.codec.Store(codecBox{codec})
 			} else {
 				return version, fmt.Errorf("invalid compression type: %s", value)
 			}
@@ -275,14 +286,14 @@ func (c *ClientConn) SetKeyspace(ctx context.Context, version primitive.Protocol
 }
 
 func (c *ClientConn) Receive(reader io.Reader) error {
-	raw, err := c.codec.DecodeRawFrame(reader)
+	raw, err := c.getCodec().DecodeRawFrame(reader)
 	if err != nil {
 		return err
 	}
 
 	if raw.Header.OpCode == primitive.OpCodeEvent {
 		if c.eventHandler != nil {
-			frm, err := c.codec.ConvertFromRawFrame(raw)
+			frm, err := c.getCodec().ConvertFromRawFrame(raw)
 			if err != nil {
 				return err
 			}
@@ -322,7 +333,7 @@ func (c *ClientConn) Receive(reader io.Reader) error {
 func (c *ClientConn) maybePrepareAndExecute(request Request, raw *frame.RawFrame) bool {
 	// The error code can't be read from the raw body: the body may be compressed and the error is preceded by a
 	// tracing ID and/or warnings when the corresponding header flags are set.
-	frm, err := c.codec.ConvertFromRawFrame(raw)
+	frm, err := c.getCodec().ConvertFromRawFrame(raw)
 	if err != nil {
 		c.logger.Error("failed to decode error response", zap.Error(err))
 		return false
@@ -365,7 +376,7 @@ func (c *ClientConn) maybeCachePrepared(request Request, raw *frame.RawFrame) {
 	// response types to see if check for prepared responses.
 	if request.IsPrepareRequest() {
 
-		frm, err := c.codec.ConvertFromRawFrame(raw)
+		frm, err := c.getCodec().ConvertFromRawFrame(raw)
 		if err != nil {
 			c.logger.Error("failed to decode prepared result response", zap.Error(err))
 			return
@@ -395,12 +406,12 @@ func (c *ClientConn) uncompressFrame(raw *frame.RawFrame) (*frame.RawFrame, erro
 		return raw, nil
 	}
 	header := *raw.Header // The request's own frame is left as it is
-	frm, err := c.codec.ConvertFromRawFrame(&frame.RawFrame{Header: &header, Body: raw.Body})
+	frm, err := c.getCodec().ConvertFromRawFrame(&frame.RawFrame{Header: &header, Body: raw.Body})
 	if err != nil {
 		return nil, err
 	}
 	frm.Header.Flags = frm.Header.Flags.Remove(primitive.HeaderFlagCompressed)
-	return c.codec.ConvertToRawFrame(frm)
+	return c.getCodec().ConvertToRawFrame(frm)
 }
 
 // adaptPrepareFrame returns a copy of a cached prepare frame that can be sent on this connection. The frame was cached
@@ -412,12 +423,12 @@ func (c *ClientConn) adaptPrepareFrame(cached *frame.RawFrame) (*frame.RawFrame,
 	if header.Version == c.version {
 		return prepare, nil
 	}
-	frm, err := c.codec.ConvertFromRawFrame(prepare)
+	frm, err := c.getCodec().ConvertFromRawFrame(prepare)
 	if err != nil {
 		return nil, err
 	}
 	frm.Header.Version = c.version
-	return c.codec.ConvertToRawFrame(frm)
+	return c.getCodec().ConvertToRawFrame(frm)
 }
 
 func (c *ClientConn) Closing(err error) {
@@ -473,7 +484,7 @@ func (c *ClientConn) SendAndReceive(ctx context.Context, f *frame.Frame) (*frame
 
 	select {
 	case r := <-request.res:
-		return c.codec.ConvertFromRawFrame(r)
+		return c.getCodec().ConvertFromRawFrame(r)
 	case e := <-request.err:
 		return nil, e
 	case <-ctx.Done():
@@ -539,13 +550,13 @@ func (r *requestSender) Send(writer io.Writer) error {
 	switch frm := r.request.Frame().(type) {
 	case *frame.Frame:
 		frm.Header.StreamId = r.stream
-		return r.conn.codec.EncodeFrame(frm, writer)
+		return r.conn.getCodec().EncodeFrame(frm, writer)
 	case *frame.RawFrame:
 		// The header is copied because a request's frame is shared: when the request is retried on another connection
 		// the two connections can be writing it at the same time, each with its own stream ID.
 		header := *frm.Header
 		header.StreamId = r.stream
-		return r.conn.codec.EncodeRawFrame(&frame.RawFrame{Header: &header, Body: frm.Body}, writer)
+		return r.conn.getCodec().EncodeRawFrame(&frame.RawFrame{Header: &header, Body: frm.Body}, writer)
 	default:
 		return errors.New("unhandled frame type")
 	}
